@@ -650,6 +650,30 @@ theorem first_of_getCore_single {fuel : Nat} {t : Val} {xp : Str} {d x : Val} {c
 
 /-! ### `delete` on a rendered spelling -/
 
+/-- no spelling of a path of plain names starts with '?' -/
+theorem renderSp_noQ (lead : Lead) (steps : List StepSp) (hp : PlainSteps steps) (hne : steps ≠ []) :
+    startsWith (renderSp lead steps) ['?'] = false := by
+  cases steps with
+  | nil => exact absurd rfl hne
+  | cons s r =>
+    cases s with
+    | idx e sep =>
+      have hbody : dropSlash (renderSteps (.idx e sep :: r)) = '[' :: (e.text ++ ']' :: renderSteps r) := by
+        cases sep <;> simp [renderSteps_cons, renderStep, dropSlash, bracket]
+      unfold renderSp; rw [hbody]
+      cases lead <;> simp [leadStr, startsWith]
+    | key k =>
+      obtain ⟨hk, _⟩ := hp
+      have hbody : dropSlash (renderSteps (.key k :: r)) = k ++ renderSteps r := by
+        simp [renderSteps_cons, renderStep, dropSlash]
+      obtain ⟨x, k', rfl⟩ : ∃ x k', k = x :: k' := by
+        cases k with
+        | nil => exact absurd rfl hk.ne
+        | cons x k' => exact ⟨x, k', rfl⟩
+      have hxq : x ≠ '?' := plainChar_ne_q (hk.chars x (by simp))
+      unfold renderSp; rw [hbody]
+      cases lead <;> simp [leadStr, startsWith, hxq]
+
 theorem delete_spelling (fuel : Nat) (cls : Cls) (kvs : List (Str × Val)) (lead : Lead)
     (steps : List StepSp) (c t' : Val) (r : Bool)
     (hp : PlainSteps steps) (hne : steps ≠ []) (hget : stepsGet (.dict cls kvs) steps = some c)
@@ -663,7 +687,7 @@ theorem delete_spelling (fuel : Nat) (cls : Cls) (kvs : List (Str × Val)) (lead
   have hlen := toksOf_length_le steps
   have htne := toksOf_ne_nil steps hne
   unfold delete deleteTokens
-  simp only [htok]
+  simp only [stripQ_noQ _ (renderSp_noQ lead steps hp hne), htok]
   cases r with
   | false => exact deleteLoop_spelled fuel _ _ _ c t' hs htne hdel (by omega)
   | true => exact deleteLoop_rec_spelled fuel _ _ _ c t' hs htne hdel (by omega)
@@ -793,7 +817,7 @@ theorem findL_miss (root : Val) (rl : Bool) (sp : Pos) {toks : List Str} {v : Va
     cases c with
     | dict dc kvs =>
       rw [findL_idx_step_dict f root sp rl q found tok e i rest hm.ne_nil cls xs n dc kvs hq hk hn hx]
-      exact find_miss_sp root rl (q ++ [.idx n]) hm f (q ++ [.idx n]) _ true hq' hf'
+      exact find_miss_sp root rl sp hm f (q ++ [.idx n]) _ true hq' hf'
     | list lc ys =>
       rw [findL_idx_step_list f root sp rl q found tok e i rest hm.ne_nil cls xs n lc ys hq hk hn hx]
       exact ih f (q ++ [.idx n]) _ ⟨lc, ys, rfl⟩ hq' hf'
